@@ -18,7 +18,7 @@ from ..formulas import LANGS
 from ..galg import (GraphHooks, evaluate_set, all_graphs, all_subsets,
                     NotEvaluable, GraphError, CG, g_sccs, g_reach, g_reversed)
 from .. import oracle
-from ..report import Finding, RuleResult, floor, Attempts
+from ..report import Finding, RuleResult, floor, Attempts, adopt
 
 PROP = 'C15'
 METHOD = 'get_equivalent_non_fair_formula'
@@ -561,4 +561,8 @@ def run(prog, tier, seed):
                    'the cited definition does not say whether T is an atom',
                    'exactness of fair answers beyond these clauses is not '
                    'decided']
-    return T.results(r1, r2, r4, r3, r5), expl, assumptions, T.extra()
+    from . import c19
+    dep = adopt(T.results(T(c19.rule_res5, prog)), PROP,
+                'the fair label must not capture an atom of the structure')
+    return T.results(r1, r2, r4, r3, r5) + dep, expl, assumptions, \
+        T.extra()
